@@ -7,6 +7,7 @@ mod props_kin;
 mod props_misc;
 mod props_coll;
 mod props_plan;
+mod props_file;
 
 fn main() {
     // panics inside the library are outcomes; keep stderr quiet
@@ -37,6 +38,8 @@ fn main() {
         "C14" => props_coll::c14(seed, n),
         "C11" => props_coll::c11(seed, n),
         "C13" => props_plan::c13(seed, n),
+        "C19" => props_file::c19(seed, n),
+        "C20" => props_file::c20(seed, n),
         "consts" => props_kin::consts(),
         _ => { eprintln!("unknown property {}", prop); std::process::exit(2); }
     }
